@@ -180,8 +180,13 @@ func WetterK(VWDAT string, year int, g *GlobalVarsMain, s *WeatherDataShared, hP
 
 type corrArr []float64
 
-func (CORRK corrArr) getCorrValue(T int) float64 {
+// getCorrValue returns the correction factor of the month that day of year T lies in
+func (CORRK corrArr) getCorrValue(T int, leapYear bool) float64 {
 	var cor float64
+	if leapYear && T >= 60 {
+		// the month limits below are those of a common year: 29 February (day 60) belongs to February, every later day is one day further on
+		T--
+	}
 	if T < 32 {
 		cor = CORRK[0]
 	} else if T < 60 {
@@ -593,8 +598,9 @@ func ReadWeatherCZ(VWDAT string, startyear int, g *GlobalVarsMain, s *WeatherDat
 func (s *WeatherDataShared) transformWeatherData(yrz int, corr corrArr) {
 	for y := 0; y < yrz; y++ {
 		T := s.MaxYearDays[y]
+		leapYear := time.Date(s.JAR[y], time.December, 31, 0, 0, 0, 0, time.UTC).YearDay() == 366
 		for index := 0; index < T; index++ {
-			cor := corr.getCorrValue(index + 1)
+			cor := corr.getCorrValue(index+1, leapYear)
 			// water model for rivers calculates in cm, so mm is transformed to cm by dividing by 10
 
 			// correction of precipitation (turn on/off in config)
